@@ -90,7 +90,8 @@ class Engine(EngineBase):
             if kind == "buffer" and r < 0.25:
                 ops.append(["capacity", rng.choice([0, 64, 1024, 32 * 2**20])])
                 continue
-            if kind == "stale" and r < 0.10:
+            if (kind == "stale" and r < 0.10) or (kind == "buffer" and 0.25 <= r < 0.28):
+                # fresh handles (in buffered scenarios also in the middle of a block)
                 ops.append(["restart"])
                 continue
             if kind == "stale" and r < 0.18 and t < ntargets - 1:
@@ -335,6 +336,14 @@ class Run:
             w.make_handles()
             self.probe("restart")
             self.probe("stale_path")
+            if self.blk is not None:
+                # the old handle objects stay registered with the buffer: which one is flushed first is
+                # no longer tracked exactly
+                self.blk["simple"] = False
+                for t in list(self.blk["order"]):
+                    self.blk["order"][t] = self.blk["order"][t] + ["old"]
+                self.block_coarse()
+                self.probe("restart_inside_block")
             return
         if k in ("remove_reinit", "rekey", "probe_none_over_nested", "probe_type_flip"):
             try:
